@@ -10,6 +10,9 @@ Property theorems on the ATOMIC-STEP model (Model/C13.lean, on top of C08's mode
   C13_linearizable            every interleaving is the sequential history in that order
   C13_saved_manifest          a save at any point returns the contents at that point of the history
   C13_lock_order              hierarchical locking: no wait-for cycle; Rename / Flush obey the rule
+  C13_rwlock_order            the same for sync.RWMutex semantics (shared read locks, pending writers
+                              block new readers) for the single-path operations; a re-entrant read
+                              lock (seed C13-h) is a cycle
 
 What these theorems do NOT say: that the Go code really is atomic at these steps (data-race freedom),
 that sync.RWMutex / channels behave, deadlock freedom with the throttle and real goroutines. Those
@@ -18,6 +21,7 @@ are exercised by the correspondence run (race detector, parked PutB, deadline), 
 import ArvVerif.Proofs.C13_Hist
 import ArvVerif.Proofs.C13_Cow
 import ArvVerif.Proofs.C13_Lock
+import ArvVerif.Proofs.C13_RW
 namespace ArvVerif.C13
 open ArvVerif.C08
 
@@ -202,6 +206,49 @@ theorem C13_lock_scripts {par : Nat → Nat} {dep : Nat → Nat} (ht : Lock.Tree
   ⟨fun fuel od nd moved h1 h2 h3 h4 h5 => (Lock.renameScript_ok ht fuel od nd moved h1 h2 h3 h4 h5).1,
    fun kids hk fuel d hnd => Lock.flushScript_ok ht hk fuel d hnd,
    fun script s0 h0 hs k => Lock.script_opOK h0 hs k⟩
+
+/-- **Lock order with reader/writer locks.** With read locks shared, write locks exclusive and a
+pending `Lock()` blocking every later `RLock()` (sync.RWMutex), operations that only ever ask for a
+lock ranking strictly above every lock they hold — in any mode, so never one they hold — cannot form a
+wait-for cycle (no `Exclusive` hypothesis: any number of readers may share a lock). On every inode tree
+the single-path operations keep this discipline at every step with rank = depth: filehandle
+Read / Seek / Stat (one read lock), Write / Truncate / completion goroutines / waitPrune (one write
+lock), OpenFile, Readdir, remove / Mkdir (directory, then one child). The discipline cannot be
+dropped: a second read lock on a held mutex is a cycle as soon as a writer is pending — the state
+the Seek of seed C13-h reaches. -/
+theorem C13_rwlock_order {par : Nat → Nat} {dep : Nat → Nat} (ht : Lock.TreeOK par dep) :
+    (∀ (ops : List RW.ROp), (∀ o ∈ ops, RW.Ordered (Lock.ldepth dep) o) → ∀ i, ¬ RW.Path ops i i) ∧
+    (∀ n k, RW.Ordered (Lock.ldepth dep) (RW.atStep (RW.readScript n) k) ∧
+            RW.Ordered (Lock.ldepth dep) (RW.atStep (RW.seekScript n) k) ∧
+            RW.Ordered (Lock.ldepth dep) (RW.atStep (RW.statScript n) k) ∧
+            RW.Ordered (Lock.ldepth dep) (RW.atStep (RW.writeScript n) k)) ∧
+    (∀ d c, c ≠ 0 → par c = d → ∀ k (create isDir : Bool),
+            RW.Ordered (Lock.ldepth dep) (RW.atStep (RW.openScript create d c) k) ∧
+            RW.Ordered (Lock.ldepth dep) (RW.atStep (RW.readdirScript d c isDir) k) ∧
+            RW.Ordered (Lock.ldepth dep) (RW.atStep (RW.removeScript d c) k)) ∧
+    (∀ n, RW.Path [RW.atStep (RW.reentrantSeekScript n) 1, RW.atStep (RW.writeScript n) 0] 0 0 ∧
+          ∀ rank : Lock.Lk → Nat, ¬ RW.Ordered rank (RW.atStep (RW.reentrantSeekScript n) 1)) :=
+  ⟨fun _ hord i => RW.no_cycle hord i,
+   fun _ k => ⟨RW.script_ordered (RW.single_inc _) k, RW.script_ordered (RW.single_inc _) k,
+               RW.script_ordered (RW.single_inc _) k, RW.script_ordered (RW.single_inc _) k⟩,
+   fun _ _ hc hp k _ _ => ⟨RW.script_ordered (RW.pair_inc ht hc hp _ _) k, RW.script_ordered (RW.pair_inc ht hc hp _ _) k,
+                           RW.script_ordered (RW.pair_inc ht hc hp _ _) k⟩,
+   fun n => ⟨RW.reentrant_read_cycle (n + 1), fun _ => RW.reentrantSeek_not_ordered n⟩⟩
+
+/-- non-vacuity: three readers sharing a file's lock (a Read, a Seek inside Size, a Stat), a pending
+completion goroutine, and a non-creating OpenFile with O_TRUNC holding the directory's read lock
+together with a Readdir: every one keeps the discipline (root = inode 0, directory 1, file 2) -/
+example : ∀ o ∈ [RW.atStep (RW.readScript 2) 1, RW.atStep (RW.seekScript 2) 1, RW.atStep (RW.statScript 2) 0,
+      RW.atStep (RW.writeScript 2) 0, RW.atStep (RW.openScript false 1 2) 1, RW.atStep (RW.readdirScript 1 2 false) 1],
+    RW.Ordered (Lock.ldepth (fun n => n)) o := by
+  intro o ho
+  simp only [List.mem_cons, List.mem_singleton, List.not_mem_nil, or_false] at ho
+  rcases ho with h | h | h | h | h | h <;> subst h <;> intro a ha x hx <;>
+    simp [RW.atStep, RW.readScript, RW.seekScript, RW.statScript, RW.writeScript, RW.openScript, RW.readdirScript] at ha hx <;>
+    (try subst ha) <;> (try subst hx) <;> simp [Lock.ldepth]
+
+example : Lock.TreeOK (fun n => n - 1) (fun n => n) :=
+  ⟨rfl, fun n hn => ⟨by omega, by omega⟩⟩
 
 /-! ### Non-vacuity -/
 
